@@ -186,6 +186,12 @@ C01_ConfiguredLimits ==
   /\ (l = 2 => InitLimitsOk(Trace[1]))
   /\ (l <= N /\ Trace[l].ev = "Init" => InitLimitsOk(Trace[l]))
 
+\* what a counterexample shows of a state: everything but the configuration tables (a trace file has hundreds of thousands
+\* of lines, and TLC prints the behaviour from the first one)
+TAlias == [l |-> l, out |-> out, last |-> last, offset |-> offset, fanMin |-> fanMin, pwm |-> pwm, mode |-> mode, avg |-> avg,
+           unexpected |-> unexpected, status |-> status, loop |-> loop, touched |-> touched, zeros |-> zeros, spin |-> spin,
+           ccv |-> ccv, kc |-> kc, prevReq |-> prevReq, alg |-> cfg.alg, gmin |-> cfg.gmin, mx |-> cfg.mx, drift |-> drift]
+
 Report == l = N + 1 => PrintT(<<"TRACE-DONE", N, "DRIFT", drift>>)
 TraceAccepted == TLCGet("stats").diameter = N
 ==============================================================================
